@@ -465,48 +465,59 @@ def rule_numeq(repo, rep, r5):
                                 + (": empty aggregators (NaN mean/min/max) would not be equal to themselves" if (lx, ly) == ("nan", "nan") else ""),
                                 stmt=f"numeq({lx},{ly}) -> {got}")
     tests = [n for n in g.nodes if n.kind == "test"]
-    # (b) NaN branch precedes everything else; (c) tolerance branches guarded by `> 0` and widening; (d) final x == y
-    tol_ok = True
+    # (c) tolerances only widen: every return that is control dependent on a test of a tolerance is reached only through positive
+    #     tests (`tol > 0`, on either edge) and, where a tolerance is positive on the path, returns `abs(x - y) <= <bound of those tolerances>`
+    TOLS = {"relativeTolerance", "absoluteTolerance"}
+
+    def positive_test(cn):
+        if not (isinstance(cn, ast.Compare) and len(cn.ops) == 1):
+            return None
+        a, op, b = cn.left, cn.ops[0], cn.comparators[0]
+        if isinstance(a, ast.Name) and a.id in TOLS and txt(b) in ("0.0", "0") and isinstance(op, ast.Gt):
+            return a.id
+        if isinstance(b, ast.Name) and b.id in TOLS and txt(a) in ("0.0", "0") and isinstance(op, ast.Lt):
+            return b.id
+        return None
+
+    tcd = g.transitive_control_deps()
     ntol = 0
-    for n in tests:
-        names = {a.id for a in ast.walk(n.ast) if isinstance(a, ast.Name)}
-        tols = names & {"relativeTolerance", "absoluteTolerance"}
-        if not tols:
+    for n in g.nodes:
+        if not (n.kind == "stmt" and isinstance(n.ast, ast.Return)):
             continue
+        deps_t = [(g.nodes[tid], lab) for (tid, lab) in tcd[n.id] if g.nodes[tid].kind == "test"
+                  and {a.id for a in ast.walk(g.nodes[tid].ast) if isinstance(a, ast.Name)} & TOLS]
+        if not deps_t:
+            continue
+        good = True
+        pos_on_path = set()
+        for tn, lab in deps_t:
+            conj = tn.ast.values if isinstance(tn.ast, ast.BoolOp) and isinstance(tn.ast.op, ast.And) else [tn.ast]
+            names = [positive_test(cn) for cn in conj]
+            if any(x is None for x in names):
+                good = False
+            elif lab == "T":
+                pos_on_path |= set(names)
+        if not pos_on_path:
+            continue         # reached with all tested tolerances non-positive: decided by the zero-tolerance table above
         ntol += 1
-        # every tolerance mentioned must be tested `> 0.0`
-        conj = n.ast.values if isinstance(n.ast, ast.BoolOp) and isinstance(n.ast.op, ast.And) else [n.ast]
-        def positive_test(cn):
-            if not (isinstance(cn, ast.Compare) and len(cn.ops) == 1):
-                return False
-            a, op, b = cn.left, cn.ops[0], cn.comparators[0]
-            return (isinstance(a, ast.Name) and txt(b) in ("0.0", "0") and isinstance(op, ast.Gt)) or \
-                   (isinstance(b, ast.Name) and txt(a) in ("0.0", "0") and isinstance(op, ast.Lt))
-        good = all(positive_test(cn) for cn in conj)
-        ret = None
-        for lab, s in n.succ:
-            if lab == "T":
-                ret = g.nodes[s]
         widening = False
-        if ret is not None and ret.kind == "stmt" and isinstance(ret.ast, ast.Return) and isinstance(ret.ast.value, ast.Compare):
-            cmpn = ret.ast.value
+        v = n.ast.value
+        if isinstance(v, ast.Compare) and len(v.ops) == 1:
             dist = (f"abs({x}-{y})", f"abs({y}-{x})")
             bound = None
-            if len(cmpn.ops) == 1 and isinstance(cmpn.ops[0], ast.LtE) and txt(cmpn.left) in dist:
-                bound = cmpn.comparators[0]
-            elif len(cmpn.ops) == 1 and isinstance(cmpn.ops[0], ast.GtE) and txt(cmpn.comparators[0]) in dist:
-                bound = cmpn.left
-            widening = bound is not None
-            if widening:
-                used = {a.id for a in ast.walk(bound) if isinstance(a, ast.Name)} & {"relativeTolerance", "absoluteTolerance"}
-                widening = used <= tols
+            if isinstance(v.ops[0], ast.LtE) and txt(v.left) in dist:
+                bound = v.comparators[0]
+            elif isinstance(v.ops[0], ast.GtE) and txt(v.comparators[0]) in dist:
+                bound = v.left
+            if bound is not None:
+                used = {a.id for a in ast.walk(bound) if isinstance(a, ast.Name)} & TOLS
+                widening = used <= pos_on_path
         ok = good and widening
-        r5.ob(ok, f"numeq: tolerance branch `{norm(n.stmt)}`")
+        r5.ob(ok, f"numeq: return under positive {sorted(pos_on_path)}: `{norm(n.stmt)[:60]}`")
         if not ok:
-            tol_ok = False
-            rep.finding("R9.5", f, n.stmt, "tolerance branch is not of the guarded widening form "
-                        "`if tol > 0.0: return abs(x - y) <= ...`: with zero tolerances == would no longer be exact",
-                        stmt=f"tolerance branch {norm(n.stmt)}")
+            rep.finding("R9.5", f, n.stmt, "a return reached with a positive tolerance is not of the guarded widening form "
+                        "`abs(x - y) <= <bound built from the tolerances tested positive on this path>`: a positive tolerance could "
+                        "narrow the comparison or a zero tolerance could take part in it", stmt=f"tolerance return {norm(n.stmt)[:60]}")
     if ntol == 0:
         r5.ob(True, "numeq: no tolerance branches")
     # module-level defaults are zero
